@@ -12,9 +12,12 @@ Init == /\ i = 1
 Next ==
   /\ i <= Len(Trace)
   /\ i' = i + 1
-  /\ \E c \in {Trace[i]} : \E R \in {P!Replay(c.h)} : \E x \in {P!StoreHits(c.cfg, c.h)} :
-       \E bad \in {P!Failing(P!C14_Clauses(c.cfg, R))} :
-        /\ (bad # {} => PrintT(<<"FAIL", c.scn, "C14", bad>>) /\ PrintT(<<"INFO", c.scn, "first differing event", R.firstbad>>))
+  /\ \E c \in {Trace[i]} : \E R \in {IF c.fam = "storestress" THEN [firstbad |-> 0] ELSE P!Replay(c.h)} :
+       \E x \in {IF c.fam = "storestress" THEN [k \in HitKeys |-> FALSE] ELSE P!StoreHits(c.cfg, c.h)} :
+       \E bad \in {IF c.fam = "storestress"
+                      THEN (IF P!QuiesceOK(c.h[1]) THEN {} ELSE {"quiescentConsistency"})
+                      ELSE P!Failing(P!C14_Clauses(c.cfg, R))} :
+        /\ (bad # {} => PrintT(<<"FAIL", c.scn, Props, bad>>) /\ PrintT(<<"INFO", c.scn, "first differing event", R.firstbad>>))
         /\ ((c.hasexp /\ c.exp # c.h) => PrintT(<<"DRIFT", c.scn>>))
         /\ stats' = [scenarios |-> stats.scenarios + 1, events |-> stats.events + Len(c.h),
                      hits |-> [k \in HitKeys |-> stats.hits[k] + (IF x[k] THEN 1 ELSE 0)]]
